@@ -14,6 +14,7 @@ import Petl.Basics
 import Petl.Reshape
 import Petl.Views
 import Petl.TempFiles
+import Petl.Db
 namespace Petl
 
 def opCmp : P String := do
@@ -812,6 +813,15 @@ def opTf : P String := do
     (s', acc.2 ++ [s!"{showTFOut o}:{s'.files.length}"])) (({} : TFState), [])
   pure (" | ".intercalate res.2)
 
+/-- db <truncate> <commit> <closes> <failAt|-> <prior rows> <rows> -/
+def opDb : P String := do
+  let truncate ← pBool; let commit ← pBool; let closes ← pBool; let failAt ← pOptNat
+  let prior ← pTable; let rows ← pTable
+  let ops := loadOps truncate commit closes rows failAt
+  let d := ({ committed := prior, pending := none } : Db).run ops
+  pure (" ".intercalate (ops.map DbOp.show) ++ " # committed=" ++ showTable d.committed ++
+        " pending=" ++ (match d.pending with | none => "none" | some p => toString p.length))
+
 def dispatch (op : String) : Option (P String) :=
   match op with
   | "cmp" => some opCmp
@@ -843,6 +853,7 @@ def dispatch (op : String) : Option (P String) :=
   | "rs" => some opRs
   | "mach" => some opMach
   | "tf" => some opTf
+  | "db" => some opDb
   | _ => none
 
 end Petl
